@@ -43,6 +43,7 @@ type Program struct {
 	Custom        [][2]string `json:"custom,omitempty"`
 	PageLayout    string    `json:"page_layout,omitempty"`
 	PageMode      string    `json:"page_mode,omitempty"`
+	CatVersion    int       `json:"cat_version,omitempty"` // Catalog.Version: 0 = unset, else index into Versions + 1
 	PagesLate     bool      `json:"pages_late,omitempty"` // write the /Pages object last
 	MetaTitle     string    `json:"meta_title,omitempty"` // document-level XMP metadata (dc:title); "" = none
 	MetaPlain     bool      `json:"meta_plain,omitempty"` // MetadataStream.Plaintext
@@ -298,6 +299,9 @@ func (p *Program) Run(sink io.Writer) *Result {
 	}
 	meta.Catalog.PageLayout = pdf.Name(p.PageLayout)
 	meta.Catalog.PageMode = pdf.Name(p.PageMode)
+	if p.CatVersion > 0 {
+		meta.Catalog.Version = Versions[p.CatVersion-1]
+	}
 	res.IDUsed = meta.ID
 
 	res.PagesRef = w.Alloc()
@@ -402,10 +406,25 @@ func (p *Program) Run(sink io.Writer) *Result {
 			}
 			var refs []pdf.Reference
 			var objs []pdf.Object
+			var explicitBase pdf.Reference
 			for i := range a.Objs {
 				sub := Action{RefKind: a.RefKind, Pre: a.Pre + i}
 				if a.RefKind == "explicit" {
-					sub.RefKind = "alloc" // generation must be 0; keep numbers simple
+					// caller-chosen numbers, generation 0 (object streams
+					// cannot hold other generations)
+					if i == 0 {
+						explicitBase = w.Alloc()
+						pending = append(pending, explicitBase)
+					}
+					d := a.Delta
+					if d == 0 {
+						d = 1
+					}
+					refs = append(refs, pdf.NewReference(explicitBase.Number()+d+uint32(i), 0))
+					val := a.Objs[i].PDF()
+					handed = append(handed, owned{val, a.Objs[i]})
+					objs = append(objs, val)
+					continue
 				}
 				refs = append(refs, getRef(&sub))
 				val := a.Objs[i].PDF()
@@ -736,6 +755,11 @@ func Gen(o Opts) *rapid.Generator[Program] {
 		p.PageLayout = rapid.SampledFrom([]string{"", "SinglePage", "TwoColumnLeft"}).Draw(t, "layout")
 		p.PageMode = rapid.SampledFrom([]string{"", "UseOutlines", "FullScreen"}).Draw(t, "mode")
 		p.PagesLate = rapid.Bool().Draw(t, "pageslate")
+		if v >= pdf.V1_4 && rapid.IntRange(0, 4).Draw(t, "catversion") == 0 {
+			// the /Version entry of the catalog needs PDF 1.4; values below,
+			// equal to and above the header version are all legitimate
+			p.CatVersion = 1 + rapid.IntRange(0, 8).Draw(t, "catversionvalue")
+		}
 		if v >= pdf.V1_4 && rapid.IntRange(0, 3).Draw(t, "meta") == 0 {
 			p.MetaTitle = rapid.SampledFrom(titles[1:]).Draw(t, "metatitle")
 			if !p.Encrypted() || v >= pdf.V1_6 {
@@ -953,6 +977,9 @@ func (p *Program) Classes(r *Result) []string {
 	if p.HumanReadable {
 		cls = append(cls, "human-readable")
 	}
+	if p.CatVersion > 0 {
+		cls = append(cls, "has:catalog-version")
+	}
 	if p.MetaTitle != "" {
 		cls = append(cls, "has:xmp-metadata")
 		if p.MetaPlain && p.Encrypted() {
@@ -970,6 +997,9 @@ func (p *Program) Classes(r *Result) []string {
 				if a.Op == "putstream" {
 					has["deferred-stream"] = true
 				}
+			}
+			if a.RefKind == "explicit" && a.Op == "compressed" {
+				has["explicit-ref-compressed"] = true
 			}
 			if a.RefKind == "explicit" {
 				has["explicit-ref"] = true
